@@ -930,10 +930,11 @@ func lemmaActivationFollowsLastEpoch(b *baseEnabled, e1, e2 uint32, t1, t2 uint6
 //@ func (b *builtInFuncFactory) GasScheduleChange
 //@   requires b != nil && !isNil(b.builtInFunctions) && locksFree()
 //@   view reg = payload(b.builtInFunctions)
+//@   requires regOK(reg) && forall(k, bseq, regHas(reg, k) ==> implements(regTyp(reg, k), typeid("vmcommon.BuiltinFunction")) && regVal(reg, k) != 0)
 //@   loop 0 invariant b.gasConfig == newGasConfig && newGasConfig != nil && fresh(newGasConfig) && locksFree()
-//@   loop 0 invariant forall(k, bseq, visited(0)[k] ==> priced(RegTyp[reg][k], RegVal[reg][k], newGasConfig))
+//@   loop 0 invariant forall(k, bseq, visited(0)[k] ==> priced(regTyp(reg, k), regVal(reg, k), newGasConfig))
 //@   ensures[C16] b.gasConfig != old(b.gasConfig) ==> b.gasConfig != nil && completeBase(gasSchedule["BaseOperationCost"]) && completeBuiltIn(gasSchedule["BuiltInCost"]) && b.gasConfig.BuiltInCost.ESDTTransfer == gasSchedule["BuiltInCost"]["ESDTTransfer"] && b.gasConfig.BaseOperationCost.StorePerByte == gasSchedule["BaseOperationCost"]["StorePerByte"]
-//@   ensures[C16] b.gasConfig != old(b.gasConfig) ==> forall(k, bseq, RegHas[reg][k] ==> priced(RegTyp[reg][k], RegVal[reg][k], b.gasConfig))
+//@   ensures[C16] b.gasConfig != old(b.gasConfig) ==> forall(k, bseq, regHas(reg, k) ==> priced(regTyp(reg, k), regVal(reg, k), b.gasConfig))
 //@   ensures[C16] !(completeBase(gasSchedule["BaseOperationCost"]) && completeBuiltIn(gasSchedule["BuiltInCost"])) ==> unchangedAll()
 //@   modifies b.gasConfig, heap(H|builtInFunctions.changeOwnerAddress|.gasCost), heap(H|builtInFunctions.claimDeveloperRewards|.gasCost), heap(H|builtInFunctions.saveUserName|.gasCost), heap(H|builtInFunctions.saveKeyValueStorage|.funcGasCost), heap(H|builtInFunctions.saveKeyValueStorage|.gasConfig.StorePerByte), heap(H|builtInFunctions.saveKeyValueStorage|.gasConfig.ReleasePerByte), heap(H|builtInFunctions.saveKeyValueStorage|.gasConfig.DataCopyPerByte), heap(H|builtInFunctions.saveKeyValueStorage|.gasConfig.PersistPerByte), heap(H|builtInFunctions.saveKeyValueStorage|.gasConfig.CompilePerByte), heap(H|builtInFunctions.saveKeyValueStorage|.gasConfig.AoTPreparePerByte), heap(H|builtInFunctions.esdtTransfer|.funcGasCost), heap(H|builtInFunctions.esdtBurn|.funcGasCost), heap(H|builtInFunctions.esdtLocalMint|.funcGasCost), heap(H|builtInFunctions.esdtLocalBurn|.funcGasCost), heap(H|builtInFunctions.esdtNFTCreate|.funcGasCost), heap(H|builtInFunctions.esdtNFTCreate|.gasConfig.StorePerByte), heap(H|builtInFunctions.esdtNFTCreate|.gasConfig.ReleasePerByte), heap(H|builtInFunctions.esdtNFTCreate|.gasConfig.DataCopyPerByte), heap(H|builtInFunctions.esdtNFTCreate|.gasConfig.PersistPerByte), heap(H|builtInFunctions.esdtNFTCreate|.gasConfig.CompilePerByte), heap(H|builtInFunctions.esdtNFTCreate|.gasConfig.AoTPreparePerByte), heap(H|builtInFunctions.esdtNFTAddQuantity|.funcGasCost), heap(H|builtInFunctions.esdtNFTBurn|.funcGasCost), heap(H|builtInFunctions.esdtNFTTransfer|.funcGasCost), heap(H|builtInFunctions.esdtNFTTransfer|.gasConfig.StorePerByte), heap(H|builtInFunctions.esdtNFTTransfer|.gasConfig.ReleasePerByte), heap(H|builtInFunctions.esdtNFTTransfer|.gasConfig.DataCopyPerByte), heap(H|builtInFunctions.esdtNFTTransfer|.gasConfig.PersistPerByte), heap(H|builtInFunctions.esdtNFTTransfer|.gasConfig.CompilePerByte), heap(H|builtInFunctions.esdtNFTTransfer|.gasConfig.AoTPreparePerByte), heap(H|builtInFunctions.esdtNFTMultiTransfer|.funcGasCost), heap(H|builtInFunctions.esdtNFTMultiTransfer|.gasConfig.StorePerByte), heap(H|builtInFunctions.esdtNFTMultiTransfer|.gasConfig.ReleasePerByte), heap(H|builtInFunctions.esdtNFTMultiTransfer|.gasConfig.DataCopyPerByte), heap(H|builtInFunctions.esdtNFTMultiTransfer|.gasConfig.PersistPerByte), heap(H|builtInFunctions.esdtNFTMultiTransfer|.gasConfig.CompilePerByte), heap(H|builtInFunctions.esdtNFTMultiTransfer|.gasConfig.AoTPreparePerByte), heap(H|builtInFunctions.esdtNFTAddUri|.funcGasCost), heap(H|builtInFunctions.esdtNFTAddUri|.gasConfig.StorePerByte), heap(H|builtInFunctions.esdtNFTAddUri|.gasConfig.ReleasePerByte), heap(H|builtInFunctions.esdtNFTAddUri|.gasConfig.DataCopyPerByte), heap(H|builtInFunctions.esdtNFTAddUri|.gasConfig.PersistPerByte), heap(H|builtInFunctions.esdtNFTAddUri|.gasConfig.CompilePerByte), heap(H|builtInFunctions.esdtNFTAddUri|.gasConfig.AoTPreparePerByte), heap(H|builtInFunctions.esdtNFTupdate|.funcGasCost), heap(H|builtInFunctions.esdtNFTupdate|.gasConfig.StorePerByte), heap(H|builtInFunctions.esdtNFTupdate|.gasConfig.ReleasePerByte), heap(H|builtInFunctions.esdtNFTupdate|.gasConfig.DataCopyPerByte), heap(H|builtInFunctions.esdtNFTupdate|.gasConfig.PersistPerByte), heap(H|builtInFunctions.esdtNFTupdate|.gasConfig.CompilePerByte), heap(H|builtInFunctions.esdtNFTupdate|.gasConfig.AoTPreparePerByte)
 
@@ -972,7 +973,12 @@ func lemmaFlagBytesRoundTrip(paused bool, frozen bool, b []byte) (bool, bool, []
 // critical section, see container/zz_contracts_verif.go) with the sequential effect stated here over the
 // map's contents; keys are the function names boxed as interface values.
 
+//@ func NewBuiltInFunctionContainer
+//@   ensures[C18,C19] r != nil && fresh(r) && r.objects != nil && fresh(r.objects) && r.objects.values != nil && fresh(r.objects.values) && forall(q, int, !mhas(r.objects.values)[q])
+//@   modifies new(builtInFunctions.functionContainer), new(container.MutexMap), newmap(type:container.MutexMap.values)
+
 //@ func (f *functionContainer) Get
+//@   implements vmcommon.BuiltInFunctionContainer.Get
 //@   results r, err
 //@   view K = mkey(box(key))
 //@   requires f != nil && f.objects != nil && locksFree()
@@ -980,6 +986,7 @@ func lemmaFlagBytesRoundTrip(paused bool, frozen bool, b []byte) (bool, bool, []
 //@   ensures[C19] !mhas(f.objects.values)[K] || f.objects.values == nil ==> isErr(err, ErrInvalidContainerKey)
 
 //@ func (f *functionContainer) Add
+//@   implements vmcommon.BuiltInFunctionContainer.Add
 //@   results err
 //@   view K = mkey(box(key))
 //@   requires f != nil && f.objects != nil && f.objects.values != nil && locksFree()
@@ -1016,36 +1023,37 @@ func lemmaFlagBytesRoundTrip(paused bool, frozen bool, b []byte) (bool, bool, []
 //@   results f, err
 //@   ensures[C18] err == nil ==> f != nil && fresh(f) && f.enableUserNameChange == args.EnableUserNameChange && f.mapDNSAddresses == args.MapDNSAddresses && f.marshalizer == args.Marshalizer && f.accounts == args.Accounts && f.shardCoordinator == args.ShardCoordinator && f.epochNotifier == args.EpochNotifier && f.esdtNFTImprovementV1ActivationEpoch == args.ESDTNFTImprovementV1ActivationEpoch && f.gasConfig != nil
 //@   ensures[C18] err == nil ==> !isNil(args.Marshalizer) && !isNil(args.Accounts) && args.MapDNSAddresses != nil && !isNil(args.ShardCoordinator) && !isNil(args.EpochNotifier)
-//@   modifies RegHas, RegTyp, RegVal, new(builtInFunctions.functionContainer), new(builtInFuncFactory), new(vmcommon.GasCost)
+//@   modifies new(builtInFunctions.functionContainer), new(container.MutexMap), newmap(type:container.MutexMap.values), new(builtInFuncFactory), new(vmcommon.GasCost)
 
 //@ func (b *builtInFuncFactory) CreateBuiltInFunctionContainer
 //@   results c, err
-//@   requires b != nil && b.gasConfig != nil
-//@   ensures[C18] err == nil ==> !isNil(c) && forall(k, bseq, RegHas[payload(c)][k] == (k == "ClaimDeveloperRewards" || k == "ChangeOwnerAddress" || k == "SetUserName" || k == "SaveKeyValue" || k == "ESDTPause" || k == "ESDTUnPause" || k == "ESDTTransfer" || k == "ESDTBurn" || k == "ESDTFreeze" || k == "ESDTUnFreeze" || k == "ESDTWipe" || k == "ESDTUnSetRole" || k == "ESDTSetRole" || k == "ESDTLocalBurn" || k == "ESDTLocalMint" || k == "ESDTNFTAddQuantity" || k == "ESDTNFTBurn" || k == "ESDTNFTCreate" || k == "ESDTNFTTransfer" || k == "ESDTNFTCreateRoleTransfer" || k == "ESDTNFTUpdateAttributes" || k == "ESDTNFTAddURI" || k == "MultiESDTNFTTransfer"))
-//@   ensures[C18,C16] err == nil ==> RegTyp[payload(c)]["ClaimDeveloperRewards"] == typeid("*builtInFunctions.claimDeveloperRewards") && ptr(RegVal[payload(c)]["ClaimDeveloperRewards"], "*builtInFunctions.claimDeveloperRewards").gasCost == b.gasConfig.BuiltInCost.ClaimDeveloperRewards
-//@   ensures[C18,C16] err == nil ==> RegTyp[payload(c)]["ChangeOwnerAddress"] == typeid("*builtInFunctions.changeOwnerAddress") && ptr(RegVal[payload(c)]["ChangeOwnerAddress"], "*builtInFunctions.changeOwnerAddress").gasCost == b.gasConfig.BuiltInCost.ChangeOwnerAddress
-//@   ensures[C18,C16] err == nil ==> RegTyp[payload(c)]["SetUserName"] == typeid("*builtInFunctions.saveUserName") && ptr(RegVal[payload(c)]["SetUserName"], "*builtInFunctions.saveUserName").gasCost == b.gasConfig.BuiltInCost.SaveUserName && ptr(RegVal[payload(c)]["SetUserName"], "*builtInFunctions.saveUserName").enableChange == b.enableUserNameChange
-//@   ensures[C18,C16] err == nil ==> RegTyp[payload(c)]["SaveKeyValue"] == typeid("*builtInFunctions.saveKeyValueStorage") && ptr(RegVal[payload(c)]["SaveKeyValue"], "*builtInFunctions.saveKeyValueStorage").funcGasCost == b.gasConfig.BuiltInCost.SaveKeyValue && ptr(RegVal[payload(c)]["SaveKeyValue"], "*builtInFunctions.saveKeyValueStorage").gasConfig.PersistPerByte == b.gasConfig.BaseOperationCost.PersistPerByte
-//@   ensures[C18,C16] err == nil ==> RegTyp[payload(c)]["ESDTPause"] == typeid("*builtInFunctions.esdtPause") && ptr(RegVal[payload(c)]["ESDTPause"], "*builtInFunctions.esdtPause").pause
-//@   ensures[C18,C16] err == nil ==> RegTyp[payload(c)]["ESDTUnPause"] == typeid("*builtInFunctions.esdtPause") && !ptr(RegVal[payload(c)]["ESDTUnPause"], "*builtInFunctions.esdtPause").pause
-//@   ensures[C18,C16] err == nil ==> RegTyp[payload(c)]["ESDTTransfer"] == typeid("*builtInFunctions.esdtTransfer") && ptr(RegVal[payload(c)]["ESDTTransfer"], "*builtInFunctions.esdtTransfer").funcGasCost == b.gasConfig.BuiltInCost.ESDTTransfer
-//@   ensures[C18,C16] err == nil ==> RegTyp[payload(c)]["ESDTBurn"] == typeid("*builtInFunctions.esdtBurn") && ptr(RegVal[payload(c)]["ESDTBurn"], "*builtInFunctions.esdtBurn").funcGasCost == b.gasConfig.BuiltInCost.ESDTBurn
-//@   ensures[C18,C16] err == nil ==> RegTyp[payload(c)]["ESDTFreeze"] == typeid("*builtInFunctions.esdtFreezeWipe") && ptr(RegVal[payload(c)]["ESDTFreeze"], "*builtInFunctions.esdtFreezeWipe").freeze && !ptr(RegVal[payload(c)]["ESDTFreeze"], "*builtInFunctions.esdtFreezeWipe").wipe
-//@   ensures[C18,C16] err == nil ==> RegTyp[payload(c)]["ESDTUnFreeze"] == typeid("*builtInFunctions.esdtFreezeWipe") && !ptr(RegVal[payload(c)]["ESDTUnFreeze"], "*builtInFunctions.esdtFreezeWipe").freeze && !ptr(RegVal[payload(c)]["ESDTUnFreeze"], "*builtInFunctions.esdtFreezeWipe").wipe
-//@   ensures[C18,C16] err == nil ==> RegTyp[payload(c)]["ESDTWipe"] == typeid("*builtInFunctions.esdtFreezeWipe") && !ptr(RegVal[payload(c)]["ESDTWipe"], "*builtInFunctions.esdtFreezeWipe").freeze && ptr(RegVal[payload(c)]["ESDTWipe"], "*builtInFunctions.esdtFreezeWipe").wipe
-//@   ensures[C18,C16] err == nil ==> RegTyp[payload(c)]["ESDTUnSetRole"] == typeid("*builtInFunctions.esdtRoles") && !ptr(RegVal[payload(c)]["ESDTUnSetRole"], "*builtInFunctions.esdtRoles").set
-//@   ensures[C18,C16] err == nil ==> RegTyp[payload(c)]["ESDTSetRole"] == typeid("*builtInFunctions.esdtRoles") && ptr(RegVal[payload(c)]["ESDTSetRole"], "*builtInFunctions.esdtRoles").set
-//@   ensures[C18,C16] err == nil ==> RegTyp[payload(c)]["ESDTLocalBurn"] == typeid("*builtInFunctions.esdtLocalBurn") && ptr(RegVal[payload(c)]["ESDTLocalBurn"], "*builtInFunctions.esdtLocalBurn").funcGasCost == b.gasConfig.BuiltInCost.ESDTLocalBurn
-//@   ensures[C18,C16] err == nil ==> RegTyp[payload(c)]["ESDTLocalMint"] == typeid("*builtInFunctions.esdtLocalMint") && ptr(RegVal[payload(c)]["ESDTLocalMint"], "*builtInFunctions.esdtLocalMint").funcGasCost == b.gasConfig.BuiltInCost.ESDTLocalMint
-//@   ensures[C18,C16] err == nil ==> RegTyp[payload(c)]["ESDTNFTAddQuantity"] == typeid("*builtInFunctions.esdtNFTAddQuantity") && ptr(RegVal[payload(c)]["ESDTNFTAddQuantity"], "*builtInFunctions.esdtNFTAddQuantity").funcGasCost == b.gasConfig.BuiltInCost.ESDTNFTAddQuantity
-//@   ensures[C18,C16] err == nil ==> RegTyp[payload(c)]["ESDTNFTBurn"] == typeid("*builtInFunctions.esdtNFTBurn") && ptr(RegVal[payload(c)]["ESDTNFTBurn"], "*builtInFunctions.esdtNFTBurn").funcGasCost == b.gasConfig.BuiltInCost.ESDTNFTBurn
-//@   ensures[C18,C16] err == nil ==> RegTyp[payload(c)]["ESDTNFTCreate"] == typeid("*builtInFunctions.esdtNFTCreate") && ptr(RegVal[payload(c)]["ESDTNFTCreate"], "*builtInFunctions.esdtNFTCreate").funcGasCost == b.gasConfig.BuiltInCost.ESDTNFTCreate && ptr(RegVal[payload(c)]["ESDTNFTCreate"], "*builtInFunctions.esdtNFTCreate").gasConfig.StorePerByte == b.gasConfig.BaseOperationCost.StorePerByte
-//@   ensures[C18,C16] err == nil ==> RegTyp[payload(c)]["ESDTNFTTransfer"] == typeid("*builtInFunctions.esdtNFTTransfer") && ptr(RegVal[payload(c)]["ESDTNFTTransfer"], "*builtInFunctions.esdtNFTTransfer").funcGasCost == b.gasConfig.BuiltInCost.ESDTNFTTransfer && ptr(RegVal[payload(c)]["ESDTNFTTransfer"], "*builtInFunctions.esdtNFTTransfer").gasConfig.DataCopyPerByte == b.gasConfig.BaseOperationCost.DataCopyPerByte
-//@   ensures[C18,C16] err == nil ==> RegTyp[payload(c)]["ESDTNFTCreateRoleTransfer"] == typeid("*builtInFunctions.esdtNFTCreateRoleTransfer")
-//@   ensures[C18,C16] err == nil ==> RegTyp[payload(c)]["ESDTNFTUpdateAttributes"] == typeid("*builtInFunctions.esdtNFTupdate") && ptr(RegVal[payload(c)]["ESDTNFTUpdateAttributes"], "*builtInFunctions.esdtNFTupdate").funcGasCost == b.gasConfig.BuiltInCost.ESDTNFTUpdateAttributes && ptr(RegVal[payload(c)]["ESDTNFTUpdateAttributes"], "*builtInFunctions.esdtNFTupdate").gasConfig.StorePerByte == b.gasConfig.BaseOperationCost.StorePerByte && ptr(RegVal[payload(c)]["ESDTNFTUpdateAttributes"], "*builtInFunctions.esdtNFTupdate").baseEnabled.activationEpoch == b.esdtNFTImprovementV1ActivationEpoch
-//@   ensures[C18,C16] err == nil ==> RegTyp[payload(c)]["ESDTNFTAddURI"] == typeid("*builtInFunctions.esdtNFTAddUri") && ptr(RegVal[payload(c)]["ESDTNFTAddURI"], "*builtInFunctions.esdtNFTAddUri").funcGasCost == b.gasConfig.BuiltInCost.ESDTNFTAddURI && ptr(RegVal[payload(c)]["ESDTNFTAddURI"], "*builtInFunctions.esdtNFTAddUri").gasConfig.StorePerByte == b.gasConfig.BaseOperationCost.StorePerByte && ptr(RegVal[payload(c)]["ESDTNFTAddURI"], "*builtInFunctions.esdtNFTAddUri").baseEnabled.activationEpoch == b.esdtNFTImprovementV1ActivationEpoch
-//@   ensures[C18,C16] err == nil ==> RegTyp[payload(c)]["MultiESDTNFTTransfer"] == typeid("*builtInFunctions.esdtNFTMultiTransfer") && ptr(RegVal[payload(c)]["MultiESDTNFTTransfer"], "*builtInFunctions.esdtNFTMultiTransfer").funcGasCost == b.gasConfig.BuiltInCost.ESDTNFTMultiTransfer && ptr(RegVal[payload(c)]["MultiESDTNFTTransfer"], "*builtInFunctions.esdtNFTMultiTransfer").gasConfig.DataCopyPerByte == b.gasConfig.BaseOperationCost.DataCopyPerByte && ptr(RegVal[payload(c)]["MultiESDTNFTTransfer"], "*builtInFunctions.esdtNFTMultiTransfer").baseEnabled.activationEpoch == b.esdtNFTImprovementV1ActivationEpoch
-//@   modifies RegHas, RegTyp, RegVal, b.builtInFunctions, new(builtInFunctions.functionContainer)
+//@   requires b != nil && b.gasConfig != nil && locksFree()
+//@   ensures[C18] err == nil ==> !isNil(c) && forall(k, bseq, regHas(payload(c), k) == (k == "ClaimDeveloperRewards" || k == "ChangeOwnerAddress" || k == "SetUserName" || k == "SaveKeyValue" || k == "ESDTPause" || k == "ESDTUnPause" || k == "ESDTTransfer" || k == "ESDTBurn" || k == "ESDTFreeze" || k == "ESDTUnFreeze" || k == "ESDTWipe" || k == "ESDTUnSetRole" || k == "ESDTSetRole" || k == "ESDTLocalBurn" || k == "ESDTLocalMint" || k == "ESDTNFTAddQuantity" || k == "ESDTNFTBurn" || k == "ESDTNFTCreate" || k == "ESDTNFTTransfer" || k == "ESDTNFTCreateRoleTransfer" || k == "ESDTNFTUpdateAttributes" || k == "ESDTNFTAddURI" || k == "MultiESDTNFTTransfer"))
+//@   ensures[C18,C16] err == nil ==> regTyp(payload(c), "ClaimDeveloperRewards") == typeid("*builtInFunctions.claimDeveloperRewards") && ptr(regVal(payload(c), "ClaimDeveloperRewards"), "*builtInFunctions.claimDeveloperRewards").gasCost == b.gasConfig.BuiltInCost.ClaimDeveloperRewards
+//@   ensures[C18,C16] err == nil ==> regTyp(payload(c), "ChangeOwnerAddress") == typeid("*builtInFunctions.changeOwnerAddress") && ptr(regVal(payload(c), "ChangeOwnerAddress"), "*builtInFunctions.changeOwnerAddress").gasCost == b.gasConfig.BuiltInCost.ChangeOwnerAddress
+//@   ensures[C18,C16] err == nil ==> regTyp(payload(c), "SetUserName") == typeid("*builtInFunctions.saveUserName") && ptr(regVal(payload(c), "SetUserName"), "*builtInFunctions.saveUserName").gasCost == b.gasConfig.BuiltInCost.SaveUserName && ptr(regVal(payload(c), "SetUserName"), "*builtInFunctions.saveUserName").enableChange == b.enableUserNameChange
+//@   ensures[C18,C16] err == nil ==> regTyp(payload(c), "SaveKeyValue") == typeid("*builtInFunctions.saveKeyValueStorage") && ptr(regVal(payload(c), "SaveKeyValue"), "*builtInFunctions.saveKeyValueStorage").funcGasCost == b.gasConfig.BuiltInCost.SaveKeyValue && ptr(regVal(payload(c), "SaveKeyValue"), "*builtInFunctions.saveKeyValueStorage").gasConfig.PersistPerByte == b.gasConfig.BaseOperationCost.PersistPerByte
+//@   ensures[C18,C16] err == nil ==> regTyp(payload(c), "ESDTPause") == typeid("*builtInFunctions.esdtPause") && ptr(regVal(payload(c), "ESDTPause"), "*builtInFunctions.esdtPause").pause
+//@   ensures[C18,C16] err == nil ==> regTyp(payload(c), "ESDTUnPause") == typeid("*builtInFunctions.esdtPause") && !ptr(regVal(payload(c), "ESDTUnPause"), "*builtInFunctions.esdtPause").pause
+//@   ensures[C18,C16] err == nil ==> regTyp(payload(c), "ESDTTransfer") == typeid("*builtInFunctions.esdtTransfer") && ptr(regVal(payload(c), "ESDTTransfer"), "*builtInFunctions.esdtTransfer").funcGasCost == b.gasConfig.BuiltInCost.ESDTTransfer
+//@   ensures[C18,C16] err == nil ==> regTyp(payload(c), "ESDTBurn") == typeid("*builtInFunctions.esdtBurn") && ptr(regVal(payload(c), "ESDTBurn"), "*builtInFunctions.esdtBurn").funcGasCost == b.gasConfig.BuiltInCost.ESDTBurn
+//@   ensures[C18,C16] err == nil ==> regTyp(payload(c), "ESDTFreeze") == typeid("*builtInFunctions.esdtFreezeWipe") && ptr(regVal(payload(c), "ESDTFreeze"), "*builtInFunctions.esdtFreezeWipe").freeze && !ptr(regVal(payload(c), "ESDTFreeze"), "*builtInFunctions.esdtFreezeWipe").wipe
+//@   ensures[C18,C16] err == nil ==> regTyp(payload(c), "ESDTUnFreeze") == typeid("*builtInFunctions.esdtFreezeWipe") && !ptr(regVal(payload(c), "ESDTUnFreeze"), "*builtInFunctions.esdtFreezeWipe").freeze && !ptr(regVal(payload(c), "ESDTUnFreeze"), "*builtInFunctions.esdtFreezeWipe").wipe
+//@   ensures[C18,C16] err == nil ==> regTyp(payload(c), "ESDTWipe") == typeid("*builtInFunctions.esdtFreezeWipe") && !ptr(regVal(payload(c), "ESDTWipe"), "*builtInFunctions.esdtFreezeWipe").freeze && ptr(regVal(payload(c), "ESDTWipe"), "*builtInFunctions.esdtFreezeWipe").wipe
+//@   ensures[C18,C16] err == nil ==> regTyp(payload(c), "ESDTUnSetRole") == typeid("*builtInFunctions.esdtRoles") && !ptr(regVal(payload(c), "ESDTUnSetRole"), "*builtInFunctions.esdtRoles").set
+//@   ensures[C18,C16] err == nil ==> regTyp(payload(c), "ESDTSetRole") == typeid("*builtInFunctions.esdtRoles") && ptr(regVal(payload(c), "ESDTSetRole"), "*builtInFunctions.esdtRoles").set
+//@   ensures[C18,C16] err == nil ==> regTyp(payload(c), "ESDTLocalBurn") == typeid("*builtInFunctions.esdtLocalBurn") && ptr(regVal(payload(c), "ESDTLocalBurn"), "*builtInFunctions.esdtLocalBurn").funcGasCost == b.gasConfig.BuiltInCost.ESDTLocalBurn
+//@   ensures[C18,C16] err == nil ==> regTyp(payload(c), "ESDTLocalMint") == typeid("*builtInFunctions.esdtLocalMint") && ptr(regVal(payload(c), "ESDTLocalMint"), "*builtInFunctions.esdtLocalMint").funcGasCost == b.gasConfig.BuiltInCost.ESDTLocalMint
+//@   ensures[C18,C16] err == nil ==> regTyp(payload(c), "ESDTNFTAddQuantity") == typeid("*builtInFunctions.esdtNFTAddQuantity") && ptr(regVal(payload(c), "ESDTNFTAddQuantity"), "*builtInFunctions.esdtNFTAddQuantity").funcGasCost == b.gasConfig.BuiltInCost.ESDTNFTAddQuantity
+//@   ensures[C18,C16] err == nil ==> regTyp(payload(c), "ESDTNFTBurn") == typeid("*builtInFunctions.esdtNFTBurn") && ptr(regVal(payload(c), "ESDTNFTBurn"), "*builtInFunctions.esdtNFTBurn").funcGasCost == b.gasConfig.BuiltInCost.ESDTNFTBurn
+//@   ensures[C18,C16] err == nil ==> regTyp(payload(c), "ESDTNFTCreate") == typeid("*builtInFunctions.esdtNFTCreate") && ptr(regVal(payload(c), "ESDTNFTCreate"), "*builtInFunctions.esdtNFTCreate").funcGasCost == b.gasConfig.BuiltInCost.ESDTNFTCreate && ptr(regVal(payload(c), "ESDTNFTCreate"), "*builtInFunctions.esdtNFTCreate").gasConfig.StorePerByte == b.gasConfig.BaseOperationCost.StorePerByte
+//@   ensures[C18,C16] err == nil ==> regTyp(payload(c), "ESDTNFTTransfer") == typeid("*builtInFunctions.esdtNFTTransfer") && ptr(regVal(payload(c), "ESDTNFTTransfer"), "*builtInFunctions.esdtNFTTransfer").funcGasCost == b.gasConfig.BuiltInCost.ESDTNFTTransfer && ptr(regVal(payload(c), "ESDTNFTTransfer"), "*builtInFunctions.esdtNFTTransfer").gasConfig.DataCopyPerByte == b.gasConfig.BaseOperationCost.DataCopyPerByte
+//@   ensures[C18,C16] err == nil ==> regTyp(payload(c), "ESDTNFTCreateRoleTransfer") == typeid("*builtInFunctions.esdtNFTCreateRoleTransfer")
+//@   ensures[C18,C16] err == nil ==> regTyp(payload(c), "ESDTNFTUpdateAttributes") == typeid("*builtInFunctions.esdtNFTupdate") && ptr(regVal(payload(c), "ESDTNFTUpdateAttributes"), "*builtInFunctions.esdtNFTupdate").funcGasCost == b.gasConfig.BuiltInCost.ESDTNFTUpdateAttributes && ptr(regVal(payload(c), "ESDTNFTUpdateAttributes"), "*builtInFunctions.esdtNFTupdate").gasConfig.StorePerByte == b.gasConfig.BaseOperationCost.StorePerByte && ptr(regVal(payload(c), "ESDTNFTUpdateAttributes"), "*builtInFunctions.esdtNFTupdate").baseEnabled.activationEpoch == b.esdtNFTImprovementV1ActivationEpoch
+//@   ensures[C18,C16] err == nil ==> regTyp(payload(c), "ESDTNFTAddURI") == typeid("*builtInFunctions.esdtNFTAddUri") && ptr(regVal(payload(c), "ESDTNFTAddURI"), "*builtInFunctions.esdtNFTAddUri").funcGasCost == b.gasConfig.BuiltInCost.ESDTNFTAddURI && ptr(regVal(payload(c), "ESDTNFTAddURI"), "*builtInFunctions.esdtNFTAddUri").gasConfig.StorePerByte == b.gasConfig.BaseOperationCost.StorePerByte && ptr(regVal(payload(c), "ESDTNFTAddURI"), "*builtInFunctions.esdtNFTAddUri").baseEnabled.activationEpoch == b.esdtNFTImprovementV1ActivationEpoch
+//@   ensures[C18,C16] err == nil ==> regTyp(payload(c), "MultiESDTNFTTransfer") == typeid("*builtInFunctions.esdtNFTMultiTransfer") && ptr(regVal(payload(c), "MultiESDTNFTTransfer"), "*builtInFunctions.esdtNFTMultiTransfer").funcGasCost == b.gasConfig.BuiltInCost.ESDTNFTMultiTransfer && ptr(regVal(payload(c), "MultiESDTNFTTransfer"), "*builtInFunctions.esdtNFTMultiTransfer").gasConfig.DataCopyPerByte == b.gasConfig.BaseOperationCost.DataCopyPerByte && ptr(regVal(payload(c), "MultiESDTNFTTransfer"), "*builtInFunctions.esdtNFTMultiTransfer").baseEnabled.activationEpoch == b.esdtNFTImprovementV1ActivationEpoch
+//@   ensures[C18,C16] err == nil ==> regOK(payload(c)) && forall(k, bseq, regHas(payload(c), k) ==> implements(regTyp(payload(c), k), typeid("vmcommon.BuiltinFunction")) && regVal(payload(c), k) != 0)
+//@   modifies b.builtInFunctions, new(builtInFunctions.functionContainer), new(container.MutexMap), newmap(type:container.MutexMap.values)
 
 // lemmaMultiTransferShapeAccepted (C01, C10): the message shape the sender side of MultiESDTNFTTransfer emits
 // (the count n >= 1, then 3n item arguments, then k >= 0 call arguments; contract of
